@@ -641,7 +641,7 @@ func evalPhi(p *ssa.Phi, env intEnv, d int) (int64, bool) {
 		return 0, false // inside a helper every reachable phi is assigned by the walker
 	}
 	b := p.Block()
-	sub := intEnv{lens: map[ssa.Value]int64{}, params: map[ssa.Value]int64{}, globals: env.globals, fuel: env.fuel, stack: env.stack + 1, unknown: map[ssa.Value]bool{}}
+	sub := intEnv{lens: map[ssa.Value]int64{}, params: map[ssa.Value]int64{}, globals: env.globals, fuel: env.fuel, stack: env.stack + 1, unknown: map[ssa.Value]bool{}, opaque: env.opaque, flens: env.flens, cells: env.cells, skipLoops: env.skipLoops}
 	for k, v := range env.lens {
 		sub.lens[k] = v
 	}
